@@ -89,3 +89,16 @@ Qed.
 Example handler_state_sites_listed :
   existsb (fun s => match s_stream s with SHandlerState => true | _ => false end) sites = true.
 Proof. vm_compute. reflexivity. Qed.
+
+(* the registration changes only inside QSlog_set_handler: no other function of the library calls it, assigns the
+   file-scope statics of logging.c or takes their address (decided over the regenerated list, lifted by forallb_forall) *)
+Definition is_handler_state (s : site) : bool := match s_stream s with SHandlerState => true | _ => false end.
+
+Lemma handler_registration_only_by_host :
+  forall s, In s sites -> is_handler_state s = true -> s_base s = "QSlog_set_handler".
+Proof.
+  assert (H : forallb (fun s => negb (is_handler_state s) || String.eqb (s_base s) "QSlog_set_handler") sites = true)
+    by (vm_compute; reflexivity).
+  intros s Hs E. rewrite forallb_forall in H. specialize (H s Hs). rewrite E in H. simpl in H.
+  apply String.eqb_eq. exact H.
+Qed.
